@@ -4,7 +4,7 @@ import ast
 import z3
 
 from .values import (SV, SInt, SBool, SReal, SVal, SStr, SNone, SRef, STuple, SLit, SFunc, SClass, SExc,
-                     SSeq, SIterView, Val, NONE, NULL, INT, BOOL, REAL, VAL, STR, Ty, HeapClass,
+                     SSeq, SGen, SIterView, Val, NONE, NULL, INT, BOOL, REAL, VAL, STR, Ty, HeapClass,
                      Unsupported, Inapplicable, State, exc_isa)
 from .contract import Ctx
 from .exprs import is_exc
@@ -181,6 +181,8 @@ class CallMixin:
             self.oblige('pre-call', '%s: requires %s' % (con.qualname, label), st, b, node)
         outs = []
         mods = con.modifies(c0) if con.modifies else None
+        if con.generator:
+            return self.apply_generator_contract(con, bound, st, mods, node)
 
         def havoc(tag):
             s = st.copy()
@@ -215,7 +217,70 @@ class CallMixin:
             s = s.assume(z3.And(*[b for _, b in fs]) if fs else z3.BoolVal(True))
         if self.feasible(s.pc):
             outs.append((res, s))
+        if not outs:
+            # the caller's path is satisfiable and the callee's precondition is an obligation: a call with NO feasible
+            # outcome means the contract contradicts itself at this call site (e.g. a postcondition written for a result the
+            # contract does not declare) - silently dropping the path would make everything after the call "proved"
+            raise Unsupported('call of %s by contract has no feasible outcome (contradictory contract at this call site)' % con.qualname)
         return outs
+
+    def apply_generator_contract(self, con, bound, st, mods, node):
+        """a call of a generator function under contract, consumed in full by the caller (for-loop / list()): the items are
+        those its postcondition describes.  Sound for generators that do not modify the objects the caller works on (checked:
+        the callee's modifies list may only name classes private to the callee) and whose consumer does not modify what the
+        generator reads (the consumer's own frame obligations say so)."""
+        if con.raises:
+            raise Unsupported('generator %s with exceptional postconditions called by contract' % con.qualname)
+        scratch = State()
+        scratch.fresh = st.fresh
+        scratch.alloc = st.alloc
+        saved_fc, saved_stable = dict(self.field_consts), set(self.stable_lists)
+        try:            # the callee's setup is run on a scratch state only to learn the names and sorts of its ghost variables
+            for vv in (con.variants or [None]):        # the union over the variants: which one applies depends on the arguments
+                sc = State()
+                sc.fresh, sc.alloc = st.fresh, st.alloc
+                try:
+                    con.setup(self, sc, vv)
+                except TypeError:
+                    con.setup(self, sc)
+                for g, t in sc.ghost.items():
+                    scratch.ghost.setdefault(g, t)
+        except Exception as e:  # noqa
+            raise Unsupported('generator setup of %s: %s' % (con.qualname, e))
+        finally:
+            self.field_consts, self.stable_lists = saved_fc, saved_stable
+        private = [g for g in scratch.ghost if g.startswith('out') or g not in st.ghost]
+        s = st.copy()
+        for key in (mods or []):
+            cname, field = key
+            cls = self.classes_by_name[cname]
+            s.heap[key] = z3.Const(s.fresh.name('H_%s_%s_gen' % (cname, field)), z3.ArraySort(z3.IntSort(), cls.field_sort(field)))
+        saved = {g: s.ghost.get(g) for g in private}
+        for g in private:
+            s.ghost[g] = self.fresh(s, 'gen_' + g.strip('$'), scratch.ghost[g].sort())
+        c = Ctx(self, s, st, bound)
+        posts = con.ensures(c)
+        s = s.assume(z3.And(*[b for _, b in posts]) if posts else z3.BoolVal(True))
+        arrays, tys, k = [], [], 0
+        arity = getattr(con, 'yields', None)          # number of components of a yielded item (default: every out_k ghost)
+        while 'out_%d' % k in s.ghost and 'out_%d' % k in private and (arity is None or k < arity):
+            a = s.ghost['out_%d' % k]
+            arrays.append(a)
+            rs = a.sort().range()
+            tys.append(VAL if rs == Val else INT if rs == z3.IntSort() else REAL if rs == z3.RealSort() else None)
+            k += 1
+        if not arrays or any(t is None for t in tys):
+            raise Unsupported('generator %s: yielded components of an unsupported sort' % con.qualname)
+        gen = SGen(s.ghost['out_n'], arrays, tys, con.qualname)
+        # the callee's ghosts stay readable by the caller's contract under a qualified name; the caller's own are restored
+        for g in private:
+            s.ghost['$gen:%s:%s' % (con.qualname.split('.')[-1], g)] = s.ghost[g]
+            if saved[g] is None:
+                del s.ghost[g]
+            else:
+                s.ghost[g] = saved[g]
+        s = s.assume(gen.n >= 0)
+        return [(gen, s)]
 
     def call_opaque(self, fv, args, kwargs, st, node=None):
         """an unknown callable (on_miss, key function): returns an arbitrary value as a function of its
@@ -461,6 +526,13 @@ class CallMixin:
         v = args[0]
         if isinstance(v, (STuple, SLit)):
             return [(SLit('list', list(v.items)), st)]
+        if isinstance(v, SGen) and getattr(self, 'list_class', None) is not None and len(v.arrays) == 1 \
+                and self.list_class.e.sort() == v.arrays[0].sort().range():
+            s = st.copy()                 # list(generator): a fresh list holding the yielded items in order
+            r = self.new_ref(s, self.list_class)
+            self.hstore(s, r, 'elems', v.arrays[0])
+            self.hstore(s, r, 'len', v.n)
+            return [(r, s)]
         if isinstance(v, SVal):      # list(opaque iterable): a real list - every traversal sees the same items
             c = self.fresh(st, 'opaque_list', Val)
             self.stable_lists.add(c.get_id())
